@@ -1447,7 +1447,61 @@ def setup():
     make_ccd.use()
 
 
+# --------------------------------------------------------------------------
+# very long index arrays (size dependent code paths of the index_* functions)
+# --------------------------------------------------------------------------
+def st_index_large(tier):
+    return st.fixed_dictionaries(
+        {
+            "n_atoms": st.integers(5, 40),
+            "depth": st.sampled_from([0, 2, 3]),
+            "n_idx": st.sampled_from([65536, 65537, 70000, 131072, 140001, 3000]),
+            "seed": st.integers(0, 2**31 - 1),
+        }
+    )
+
+
+def run_index_large(case):
+    import biotite.structure as struc
+
+    o = Outcome()
+    rng = np.random.default_rng(case["seed"])
+    n, m, k = case["n_atoms"], case["depth"], case["n_idx"]
+    shape = (n, 3) if m == 0 else (m, n, 3)
+    coord = rng.normal(0, 10, shape).astype(np.float32)
+    idx = rng.integers(0, n, (k, 4))
+    o.label("stack" if m else "single", f"tuples={k}")
+    c64 = coord.astype(np.float64)
+    a, b = c64[..., idx[:, 0], :], c64[..., idx[:, 1], :]
+    want = np.sqrt(((a - b) ** 2).sum(axis=-1))
+    got = np.asarray(struc.index_distance(coord, idx[:, :2]))
+    if o.check_eq(got.shape, want.shape, "index_equals_plain", f"index_distance shape for {k} index pairs on coordinates {shape}"):
+        bad = np.abs(got - want) > 8 * EPS32 * want + 1e-5
+        o.check(not bad.any(), "index_equals_plain", lambda: f"index_distance differs from the formula at {np.argwhere(bad)[:3].tolist()}")
+    plain = np.asarray(struc.distance(coord[..., idx[:, 0], :], coord[..., idx[:, 1], :]))
+    o.check(np.array_equal(np.asarray(got), plain), "index_equals_plain", "index_distance != distance on the gathered coordinates")
+    d = np.asarray(struc.index_displacement(coord, idx[:, :2]))
+    o.check_eq(d.shape, want.shape + (3,), "index_equals_plain", "index_displacement shape")
+    ang = np.asarray(struc.index_angle(coord, idx[:, :3]))
+    o.check_eq(ang.shape, want.shape, "index_equals_plain", "index_angle shape")
+    with np.errstate(all="ignore"):
+        pa = np.asarray(struc.angle(coord[..., idx[:, 0], :], coord[..., idx[:, 1], :], coord[..., idx[:, 2], :]))
+    if ang.shape == pa.shape:
+        o.check(np.array_equal(ang, pa, equal_nan=True), "index_equals_plain", "index_angle != angle on the gathered coordinates")
+    o.mark_nontrivial(k > 65536)
+    return o
+
+
 SUBS = [
+    Sub(
+        "index_large",
+        st_index_large,
+        run_index_large,
+        quick=32,
+        thorough=600,
+        rule="more than 65536 index tuples (single model and stacks)",
+        clauses="index-based variants equal the coordinate-based ones for very long index arrays",
+    ),
     Sub(
         "measure",
         st_measure,
